@@ -101,6 +101,24 @@ def radial_order_defects(v, cp):
     return n, (tuple(int(t) for t in np.argwhere(bad)[0]) if n else None)
 
 
+def core_area_defects(v):
+    """x runs outwards: on closed field lines the area enclosed by the flux surface of radial index x (polygon through the cell centres in y order)
+    grows with x. Returns the number of neighbouring x pairs for which it does not, and the areas."""
+    cm = core_mask(v)
+    if not cm.any():
+        return 0, []
+    areas = []
+    for x in range(cm.shape[0]):
+        ys = np.where(cm[x])[0]
+        if len(ys) < 3:
+            continue
+        R, Z = v["Rxy"][x, ys], v["Zxy"][x, ys]
+        if not (np.isfinite(R).all() and np.isfinite(Z).all()):
+            continue
+        areas.append(abs(0.5 * float(np.sum(R * np.roll(Z, -1) - np.roll(R, -1) * Z))))
+    return sum(1 for a, b in zip(areas[:-1], areas[1:]) if not b > a), areas
+
+
 def summary(v, has_pressure, has_fpol, tokamak=True, orthogonal=True, cornerpsi=None):
     """everything the verdict needs, as plain data (this is also what is handed to the Lean verdict function)"""
     sc, arr2 = documented()
@@ -160,9 +178,11 @@ def summary(v, has_pressure, has_fpol, tokamak=True, orthogonal=True, cornerpsi=
         # chord polygons of coarse non-orthogonal cells next to an X-point can have crossing x-edges although the curvilinear cell is not
         # folded (cdn, 4 poloidal cells per core half): crossing chords are recorded, not judged
         nrad, where = radial_order_defects(v, cornerpsi)
-        s["fold"] = minority + torn + nrad
+        ninv, areas = core_area_defects(v)
+        s["fold"] = minority + torn + nrad + ninv
         s["fold_detail"] = {"opposite_orientation": minority, "self_intersecting": bow, "torn_x_corners": torn, "worst_x_corner_gap_m": worst,
-                            "radially_reversed": nrad, "first_radially_reversed": where}
+                            "radially_reversed": nrad, "first_radially_reversed": where,
+                            "core_surfaces_not_growing_with_x": ninv}
     return s
 
 
@@ -187,9 +207,10 @@ def verdict(s, bt_zero):
         d = s.get("fold_detail", {})
         out.append(("folded-cells", "%d cells have the opposite orientation to the rest (%d have crossing chord edges), %d corners differ "
                     "between the two x-neighbouring cells that share them (worst gap %.3g m), %d cells have a y-face whose outer corner is on the wrong side of "
-                    "its inner corner in psi (first at %s): cells folded over / torn"
+                    "its inner corner in psi (first at %s), %d closed flux surfaces do not enclose more area than the one before them in x (grid inside out): "
+                    "cells folded over / torn"
                     % (d.get("opposite_orientation", s["fold"]), d.get("self_intersecting", 0), d.get("torn_x_corners", 0), d.get("worst_x_corner_gap_m", 0.0),
-                       d.get("radially_reversed", 0), d.get("first_radially_reversed"))))
+                       d.get("radially_reversed", 0), d.get("first_radially_reversed"), d.get("core_surfaces_not_growing_with_x", 0))))
     return out
 
 
@@ -208,6 +229,7 @@ def stream(tier):
     add("cdn nonorth fpol", gridlab.tokamak_spec("cdn", options={"orthogonal": False}, fpol="linear", pressure="parab"))
     add("lsn orth no-fpol", gridlab.tokamak_spec("lsn", fpol=None))
     add("circular", gridlab.circular_spec())
+    add("circular r_inner > r_outer", gridlab.circular_spec(options={"number_of_processors": 1, "r_inner": 0.3, "r_outer": 0.1}))
     add("udn orth", gridlab.tokamak_spec("udn", fpol="const"))
     # slightly disconnected double nulls gridded as connected (nx_inter_sep = 0) with the inner SOL narrower than the outer one: accepted
     # only if the first gridded surface of BOTH SOLs lies beyond the second separatrix
@@ -306,19 +328,44 @@ def option_rejection(res):
     res.extra["invalid_values_accepted_at_creation"] = accepted
     for k, val in accepted:
         res.violation("invalid-option-accepted:%s" % k, "the invalid setting %s=%r is accepted when the options are created" % (k, val), {"option": k, "value": val})
-    # inconsistent equilibrium / mesh options
-    res.case(key=("inconsistent-options",), nontrivial=True)
+    inconsistent_options(res)
+
+
+def inconsistent_options(res, tag="inconsistent-options"):
+    """a Mesh may only be created with the option values its Equilibrium was created with (otherwise the file records settings the grid was
+    not made with and cannot be reproduced from them)"""
+    import contextlib
+    import io
+    import warnings
+    import gridlab
+    from hypnotoad import tokamak
+    from hypnotoad.core.mesh import BoutMesh
+    from props.c14 import example
+
+    r1, z1, p2, p1 = example("lsn")
+    # inconsistent equilibrium / mesh options: a Mesh may only be created with the values the Equilibrium was created with, however small
+    # the difference (tolerances are small numbers: 1e-8 versus 1e-12 is a factor 10^4)
     o = dict(gridlab.SMALL)
-    with warnings.catch_warnings(), contextlib.redirect_stdout(io.StringIO()):
-        warnings.simplefilter("ignore")
-        eq = tokamak.TokamakEquilibrium(r1, z1, p2.copy(), p1.copy(), [], wall=list(gridlab.WALL), make_regions=False, settings=o)
-        o2 = dict(o, refine_atol=1e-6)
-        try:
-            BoutMesh(eq, o2)
-            res.violation("inconsistent-options-accepted", "BoutMesh accepts refine_atol=1e-6 for an equilibrium created with the default 2e-8", {})
-        except ValueError:
-            res.traces += 1
-        except Exception:
+    for k, v_eq, v_mesh in (("refine_atol", None, 1e-6), ("refine_atol", 1e-8, 1e-12), ("finecontour_atol", 1e-12, 1e-10), ("sfunc_checktol", 1e-13, 1e-9),
+                            ("refine_width", 1e-5, 1.00001e-5), ("finecontour_Nfine", 40, 41)):
+        res.case(key=(tag, k, v_eq, v_mesh), nontrivial=True)
+        with warnings.catch_warnings(), contextlib.redirect_stdout(io.StringIO()):
+            warnings.simplefilter("ignore")
+            oe = dict(o) if v_eq is None else dict(o, **{k: v_eq})
+            eq = tokamak.TokamakEquilibrium(r1, z1, p2.copy(), p1.copy(), [], wall=list(gridlab.WALL), make_regions=False, settings=oe)
+            o2 = dict(oe, **{k: v_mesh})
+            try:
+                BoutMesh(eq, o2)
+                accepted_ = True
+            except ValueError as e:
+                accepted_ = "changed since" not in str(e)
+                why = str(e)[:160]
+            except Exception as e:  # without regions the constructor cannot get past the consistency test any other way
+                accepted_, why = True, "%s: %s" % (type(e).__name__, str(e)[:120])
+        if accepted_:
+            res.violation(tag + "-accepted:%s" % k, "BoutMesh accepts %s=%r for an equilibrium created with %s=%r%s" % (
+                k, v_mesh, k, "the default" if v_eq is None else v_eq, "" if "why" not in dir() else ""), {"option": k, "equilibrium": v_eq, "mesh": v_mesh})
+        else:
             res.traces += 1
 
 
